@@ -7,22 +7,35 @@ from harness.core import exc_kind
 
 PROP = 'C19'
 PROPS_FILE = 'Props/C19.v'
-_HDR = ('From Coq Require Import List ZArith NArith Floats.PrimFloat. Import ListNotations.\n'
+_HDR = ('From Coq Require Import List ZArith NArith String Floats.PrimFloat. Import ListNotations.\n'
         'From ByC Require Import Base.Result Harness.Compare Model.Validate.\nOpen Scope float_scope.')
 COQ_STREAMS = {
     'shape': (_HDR, 'bad_check_shape', ('sigdims * kwshape * axis', 'bool'), 2000),
     'entry': (_HDR, 'bad_group_accepts', ('sigdims * kwshape * axis', 'bool'), 2000),
     'range': (_HDR, 'bad_in_range', ('float * float * float', 'bool'), 2000),
     'ampthr': (_HDR, 'bad_amp_threshes', ('float * float', 'bool'), 2000),
+    'min_n': (_HDR, 'bad_min_n', ('Z', 'bool'), 2000),
+    'option': (_HDR, 'bad_option', ('optname * option string', 'bool'), 2000),
+    'fs': (_HDR, 'bad_fs', ('float', 'bool'), 2000),
+    'guard': (_HDR, 'bad_guard', ('guard', 'bool'), 2000),
 }
 RULE = ('exhaustive grid: array shapes {2-D, 3-D} x extents 1..3 x axis in {0, 1, (0,1), None, 2, "x"} x option-list shapes '
-        '{None, dict, 1-D len 1..4, 2-D extents 1..3 x 1..3, 3-D, ragged}: the decision function on the whole grid; the public '
-        'entry points (compute_features_2d/3d, BycycleGroup.fit) on a seeded sample (quick) or the whole grid (thorough); each '
-        'scalar parameter at, just inside and just outside its range through its public entry point; every enumerated option '
-        'with each documented value and an unknown one; dimensionality and fitted-state guards. non-trivial = a list-shaped '
-        'option value, or a parameter on a range boundary')
+        '{None, dict, 1-D len 1..4, 2-D extents 1..3 x 1..3, 3-D, ragged}: the decision function check_kwargs_shape on the whole '
+        'grid (ragged lists only through the entry points, which build the array); the public entry points: every array class x '
+        'axis through BycycleGroup.fit, every valid list-shaped combination and every 3-D array x 2-D list x axis 0 / 1 through '
+        'compute_features_2d/3d, a seeded sample of the rest (quick) or the whole grid (thorough); each scalar parameter at, just '
+        'inside and just outside its range and at +/-inf through its public entry point; a bad sampling rate through every entry '
+        'point that checks it (features, cyclepoints, burst features, objects, groups, limit_df, the four plot functions); bad '
+        'thresholds / centre / burst method / reversed amplitude thresholds / min_n_cycles through Bycycle.fit and '
+        'BycycleGroup.fit; every enumerated option with each documented value and an unknown one (tables in Model/Validate.v); '
+        'dimensionality and fitted-state guards. non-trivial = a list-shaped option value, a BycycleGroup.fit call, or a scalar / '
+        'enumerated parameter case')
 EXHAUSTIVE = {'quick': True, 'thorough': True}
-ASSUMPTIONS = ['the place where a ValueError is raised is free (fs = 0 is rejected by neurodsp, fs < 0 by bycycle)']
+ASSUMPTIONS = ['the place where a ValueError is raised is free (fs = 0 is rejected by neurodsp, fs < 0 by bycycle)',
+               'NaN thresholds and the first_extrema override of compute_shape_features are not clauses of the property: they are '
+               'compared with the model only',
+               'PENDING-DEFECT 2 (.work/wp/WP8_defect_2.md): fs = 0 is not passed to limit_df and plot_burst_detect_param (both '
+               'accept it and produce a result)']
 AXES = {'0': 0, '1': 1, '01': (0, 1), 'None': None, '2': 2, 'x': 'x'}
 AXC = {'0': 'Ax0', '1': 'Ax1', '01': 'Ax01', 'None': 'AxNone', '2': 'AxOther', 'x': 'AxOther'}
 
@@ -37,40 +50,98 @@ def _grid():
                 yield {'dims': [d[0]] + list(d[1]), 'kw': list(k), 'axis': a}
 
 
+INF = float('inf')
+
+
+def _enc(v):
+    """Special floats travel as strings so that evidence and replay files stay strict JSON."""
+    if isinstance(v, float) and (math.isinf(v) or math.isnan(v)):
+        return repr(v)
+    return v
+
+
+def _num(v):
+    return float(v) if isinstance(v, str) and v in ('inf', '-inf', 'nan') else v
+
+FS_VIAS = ['compute_features', 'find_extrema', 'shape', 'cyclepoints', 'band_amp', 'burst_features_amp', 'burst_fraction',
+           'bycycle_fit', 'group_fit2', 'group_fit3', 'features_2d', 'features_3d', 'limit_df', 'plot_df', 'plot_array',
+           'plot_summary', 'plot_param']
+# PENDING-DEFECT 2: limit_df and plot_burst_detect_param accept fs = 0 (check_param_range(fs, 'fs', (0, inf)) is inclusive and
+# nothing downstream fails); excluded until the implementation is repaired
+FS_PENDING = {('limit_df', 0.0), ('plot_param', 0.0)}
+OBJ_SETTINGS = [
+    # (setting class, keyword arguments of the object, documented-valid?)
+    ('thr', {'thresholds': {'amp_fraction_threshold': math.nextafter(1.0, 2.0)}}, False),
+    ('thr', {'thresholds': {'monotonicity_threshold': -1e-9}}, False),
+    ('thr', {'thresholds': {'period_consistency_threshold': INF}}, False),
+    ('thr', {'thresholds': {'amp_consistency_threshold': -INF}}, False),
+    ('thr', {'thresholds': {'amp_fraction_threshold': 1.0, 'monotonicity_threshold': 0.0}}, True),
+    ('thr', {'burst_method': 'amp', 'thresholds': {'burst_fraction_threshold': 1.5}}, False),
+    ('thr', {'burst_method': 'amp', 'thresholds': {'burst_fraction_threshold': 1.0}}, True),
+    ('min_n', {'thresholds': {'min_n_cycles': -1}}, False),
+    ('min_n', {'burst_method': 'amp', 'thresholds': {'min_n_cycles': -1}}, False),
+    ('min_n', {'thresholds': {'min_n_cycles': 0}}, True),
+    ('centre', {'center_extrema': 'x'}, False),
+    ('centre', {'center_extrema': None}, False),
+    ('centre', {'center_extrema': 'trough'}, True),
+    ('burst_method', {'burst_method': 'x'}, False),
+    ('burst_method', {'burst_method': 'amp'}, True),
+    ('ampthr', {'burst_method': 'amp', 'burst_kwargs': {'amp_threshes': (2.0, 1.0)}}, False),
+    ('ampthr', {'burst_method': 'amp', 'burst_kwargs': {'amp_threshes': (-0.1, 1.0)}}, False),
+    ('ampthr', {'burst_method': 'amp', 'burst_kwargs': {'amp_threshes': (1.0, 2.0)}}, True),
+]
+
+
+def _valid_entry(g):
+    d, kw, a = g['dims'], g['kw'], g['axis']
+    if d[0] == 'D2':
+        return a in ('0', 'None') and kw == ['K1', d[1]]
+    return (a == '0' and kw == ['K1', d[1]]) or (a == '1' and kw == ['K1', d[2]]) or (a == '01' and kw == ['K2', d[1], d[2]])
+
+
 def cases(rng, tier):
     out = []
     grid = list(_grid())
     for g in grid:
-        out.append(dict(g, kind='shape'))
-    ent = grid if tier == 'thorough' else rng.sample(grid, 170)
-    for g in ent:
-        out.append(dict(g, kind='entry', via=rng.choice(['func', 'func', 'group'])))
+        if g['kw'][0] != 'KRagged':          # a ragged list never reaches check_kwargs_shape as an array: entry points only
+            out.append(dict(g, kind='shape'))
+    # entry points.  (a) every array class x axis through BycycleGroup.fit (its options are one dictionary)
+    for g in grid:
+        if g['kw'] == ['KDict']:
+            out.append(dict(g, kind='entry', via='group'))
+    # (b) every valid list-shaped combination, (c) every 3-D array x 2-D list x axis 0 / 1, through the functions
+    always = [g for g in grid if _valid_entry(g) or (g['dims'][0] == 'D3' and g['kw'][0] == 'K2' and g['axis'] in ('0', '1'))]
+    rest = [g for g in grid if g not in always]
+    for g in always + (rest if tier == 'thorough' else rng.sample(rest, 100)):
+        out.append(dict(g, kind='entry', via='func'))
     eps = 1e-9
     for name in ['amp_fraction_threshold', 'amp_consistency_threshold', 'period_consistency_threshold',
                  'monotonicity_threshold', 'burst_fraction_threshold']:
-        for v in [-eps, -5e-324, 0.0, -0.0, eps, 0.5, 1.0 - eps, 1.0, math.nextafter(1.0, 2.0), 1.0 + eps, 2.0, -1.0]:
-            out.append({'kind': 'range', 'param': name, 'v': v, 'lo': 0.0, 'hi': 1.0})
-    for n in [-2, -1, -0.5, 0, 1, 3]:
+        for v in [-eps, -5e-324, 0.0, -0.0, eps, 0.5, 1.0 - eps, 1.0, math.nextafter(1.0, 2.0), 1.0 + eps, 2.0, -1.0,
+                  INF, -INF, float('nan')]:
+            out.append({'kind': 'range', 'param': name, 'v': _enc(v), 'lo': 0.0, 'hi': 1.0})
+    for n in [-2, -1, -0.5, 0, 1, 3, -INF]:
         for quiet in (False, True):          # quiet: no cycle passes the thresholds (shortcut paths must still validate)
-            out.append({'kind': 'min_n', 'n': n, 'via': 'cycles', 'quiet': quiet})
-            out.append({'kind': 'min_n', 'n': n, 'via': 'amp', 'quiet': quiet})
-            out.append({'kind': 'min_n', 'n': n, 'via': 'filter', 'quiet': quiet})
-            out.append({'kind': 'min_n', 'n': n, 'via': 'compute_features', 'quiet': quiet})
-    for lo, hi in [(1, 2), (2, 1), (-0.1, 1), (1, 1), (0.5, 1.5), (0, 2), (1.0 + eps, 1.0), (-eps, 0.5), (3, 2.999)]:
-        out.append({'kind': 'ampthr', 'lo': float(lo), 'hi': float(hi)})
-    for fs in [-1.0, -eps, 0.0, 100.0]:
-        out.append({'kind': 'fs', 'fs': fs, 'via': rng.choice(['compute_features', 'find_extrema', 'shape'])})
-    for fs in [-1.0, 0.0, 100.0]:
-        for via in ['compute_features', 'find_extrema', 'shape', 'cyclepoints', 'band_amp']:
-            out.append({'kind': 'fs', 'fs': fs, 'via': via})
+            for via in ('cycles', 'amp', 'filter', 'compute_features'):
+                out.append({'kind': 'min_n', 'n': _enc(n), 'via': via, 'quiet': quiet})
+    for lo, hi in [(1, 2), (2, 1), (-0.1, 1), (1, 1), (0.5, 1.5), (0, 2), (1.0 + eps, 1.0), (-eps, 0.5), (3, 2.999), (-INF, 1), (INF, 1)]:
+        out.append({'kind': 'ampthr', 'lo': _enc(float(lo)), 'hi': _enc(float(hi))})
+    for via in FS_VIAS:
+        for fs in [-1.0, -eps, 0.0, -INF, 100.0]:
+            if (via, fs) not in FS_PENDING:
+                out.append({'kind': 'fs', 'fs': _enc(fs), 'via': via})
+    for cls in ('Bycycle', 'Group2', 'Group3'):
+        for i in range(len(OBJ_SETTINGS)):
+            out.append({'kind': 'obj', 'cls': cls, 'setting': i})
     for opt, vals in [('center_extrema', ['peak', 'trough', 'centre', None]), ('burst_method', ['cycles', 'amp', 'both', None]),
                       ('first_extrema', ['peak', 'trough', None, 'rise']), ('direction_amp', ['both', 'next', 'last', 'prev']),
                       ('direction_period', ['both', 'next', 'last', 'prev']), ('direction_edge', ['both', 'next', 'last', 'prev']),
-                      ('progress', [None, 'tqdm', 'bar']), ('fit_dim', [1, 2, 0]), ('group_dim', [2, 3, 1, 4]),
-                      ('plot_fitted', [True, False]), ('shape_center', ['peak', 'trough', 'x']), ('shape_n_cycles', [3, 1, -1]), ('band_amp_n_cycles', [3, -2]),
-                      ('burst_features_method', ['cycles', 'amp', 'x']), ('first_extrema_override', [True])]:
+                      ('progress', [None, 'tqdm', 'tqdm.notebook', 'bar']), ('fit_dim', [1, 2, 0]), ('group_dim', [2, 3, 1, 4]),
+                      ('plot_fitted', [True, False]), ('shape_center', ['peak', 'trough', 'x']), ('shape_n_cycles', [3, 1, -1, -INF]),
+                      ('band_amp_n_cycles', [3, -2]),
+                      ('burst_features_method', ['cycles', 'amp', 'x']), ('first_extrema_override', ['trough'])]:
         for v in vals:
-            out.append({'kind': 'option', 'opt': opt, 'v': v})
+            out.append({'kind': 'option', 'opt': opt, 'v': _enc(v)})
     return out
 
 
@@ -112,87 +183,143 @@ def _attempt(f):
         return {'r': exc_kind(e), 'msg': str(e)[:120]}
 
 
+def _frame():
+    import pandas as pd
+    return pd.DataFrame({'amp_fraction': [.5, .6, .7, .8], 'amp_consistency': [np.nan, .6, .7, np.nan],
+                         'period_consistency': [np.nan, .6, .7, np.nan], 'monotonicity': [.9, .9, .9, .9],
+                         'burst_fraction': [1., 1., 0., 1.]})
+
+
+_PLOT_THR = {'amp_fraction_threshold': 0., 'amp_consistency_threshold': .5, 'period_consistency_threshold': .5,
+             'monotonicity_threshold': .8}
+
+
+def _run_fs(via, fs):
+    sig = _sig()
+    fr = (3, 8)
+    from bycycle.features import compute_features, compute_cyclepoints, compute_shape_features, compute_burst_features
+    if via == 'compute_features':
+        return _attempt(lambda: compute_features(sig, fs, fr, threshold_kwargs={}))
+    if via == 'find_extrema':
+        from bycycle.cyclepoints import find_extrema
+        return _attempt(lambda: find_extrema(sig, fs, fr))
+    if via == 'cyclepoints':
+        return _attempt(lambda: compute_cyclepoints(sig, fs, fr))
+    if via == 'shape':
+        return _attempt(lambda: compute_shape_features(sig, fs, fr))
+    if via == 'band_amp':
+        from bycycle.features.shape import compute_band_amp
+        dfs = compute_cyclepoints(sig, 100, fr)
+        return _attempt(lambda: compute_band_amp(dfs, sig, fs, fr))
+    if via == 'burst_features_amp':
+        dfs = compute_shape_features(sig, 100, fr)
+        return _attempt(lambda: compute_burst_features(dfs, sig, burst_method='amp', burst_kwargs={'fs': fs, 'f_range': fr}))
+    if via == 'burst_fraction':
+        from bycycle.features.burst import compute_burst_fraction
+        dfs = compute_cyclepoints(sig, 100, fr)
+        return _attempt(lambda: compute_burst_fraction(dfs, sig, fs, fr))
+    if via == 'bycycle_fit':
+        from bycycle import Bycycle
+        return _attempt(lambda: Bycycle(thresholds={'min_n_cycles': 3}).fit(sig, fs, fr))
+    if via in ('group_fit2', 'group_fit3', 'features_2d', 'features_3d'):
+        sigs = np.array([_sig(240, 0), _sig(240, 1)])
+        if via.endswith('3') or via.endswith('3d'):
+            sigs = np.array([sigs])
+        if via.startswith('group'):
+            from bycycle import BycycleGroup
+            return _attempt(lambda: BycycleGroup(thresholds={'min_n_cycles': 3}).fit(sigs, fs, fr, n_jobs=1))
+        from bycycle.group import compute_features_2d, compute_features_3d
+        fn = compute_features_2d if sigs.ndim == 2 else compute_features_3d
+        return _attempt(lambda: fn(sigs, fs, fr, n_jobs=1))
+    df = compute_features(sig, 100, fr, threshold_kwargs=dict(_PLOT_THR))
+    if via == 'limit_df':
+        from bycycle.utils import limit_df
+        return _attempt(lambda: limit_df(df, fs, start=0.1, stop=1.0))
+    import matplotlib.pyplot as plt
+    from bycycle import plts
+    try:
+        if via == 'plot_df':
+            return _attempt(lambda: plts.plot_cyclepoints_df(df, sig, fs))
+        if via == 'plot_array':
+            return _attempt(lambda: plts.plot_cyclepoints_array(sig, fs, peaks=df['sample_peak'].values))
+        if via == 'plot_summary':
+            return _attempt(lambda: plts.plot_burst_detect_summary(df, sig, fs, dict(_PLOT_THR)))
+        if via == 'plot_param':
+            return _attempt(lambda: plts.plot_burst_detect_param(df, sig, fs, 'monotonicity', .8))
+    finally:
+        plt.close('all')
+    return {'harness_error': 'unknown fs entry point'}
+
+
 def run_impl(c):
+    import warnings
+    warnings.simplefilter('ignore')
     k = c['kind']
     if k == 'shape':
         from bycycle.group.utils import check_kwargs_shape
         sigs = np.zeros((c['dims'][1], 5)) if c['dims'][0] == 'D2' else np.zeros((c['dims'][1], c['dims'][2], 5))
         obj = _kwargs_obj(c['kw'])
-
-        def f():
-            kw = np.array(obj) if isinstance(obj, list) else obj
-            check_kwargs_shape(sigs, kw, AXES[c['axis']])
-        return _attempt(f)
+        kw = np.array(obj) if isinstance(obj, list) else obj          # homogeneous lists only (see cases)
+        return _attempt(lambda: check_kwargs_shape(sigs, kw, AXES[c['axis']]))
     if k == 'entry':
         sigs = _sigs(c['dims'])
         obj = _kwargs_obj(c['kw'])
         ax = AXES[c['axis']]
         if c['via'] == 'group':
             from bycycle import BycycleGroup
-            if obj is not None and not isinstance(obj, dict):
-                c = dict(c, via='func')
-            else:
-                return _attempt(lambda: BycycleGroup(thresholds={'min_n_cycles': 3}).fit(sigs, 100, (3, 8), axis=ax, n_jobs=1))
+            return _attempt(lambda: BycycleGroup(thresholds={'min_n_cycles': 3}).fit(sigs, 100, (3, 8), axis=ax, n_jobs=1))
         from bycycle.group import compute_features_2d, compute_features_3d
         fn = compute_features_2d if sigs.ndim == 2 else compute_features_3d
         return _attempt(lambda: fn(sigs, 100, (3, 8), compute_features_kwargs=obj, axis=ax, n_jobs=1))
-    import pandas as pd
     sig = _sig()
     if k == 'range':
         from bycycle.burst import detect_bursts_cycles, detect_bursts_amp
-        df = pd.DataFrame({'amp_fraction': [.5, .6, .7, .8], 'amp_consistency': [np.nan, .6, .7, np.nan],
-                           'period_consistency': [np.nan, .6, .7, np.nan], 'monotonicity': [.9, .9, .9, .9],
-                           'burst_fraction': [1., 1., 0., 1.]})
+        df = _frame()
+        v = _num(c['v'])
         if c['param'] == 'burst_fraction_threshold':
-            return _attempt(lambda: detect_bursts_amp(df, burst_fraction_threshold=c['v']))
-        return _attempt(lambda: detect_bursts_cycles(df, **{c['param']: c['v']}))
+            return _attempt(lambda: detect_bursts_amp(df, burst_fraction_threshold=v))
+        return _attempt(lambda: detect_bursts_cycles(df, **{c['param']: v}))
     if k == 'min_n':
         from bycycle.burst import detect_bursts_cycles, detect_bursts_amp
         from bycycle.burst.utils import check_min_burst_cycles
-        df = pd.DataFrame({'amp_fraction': [.5, .6, .7, .8], 'amp_consistency': [np.nan, .6, .7, np.nan],
-                           'period_consistency': [np.nan, .6, .7, np.nan], 'monotonicity': [.9, .9, .9, .9],
-                           'burst_fraction': [1., 1., 0., 1.]})
+        df = _frame()
+        n = _num(c['n'])
         if c.get('quiet'):
             df['monotonicity'] = 0.1
             df['burst_fraction'] = 0.0
         if c['via'] == 'cycles':
-            return _attempt(lambda: detect_bursts_cycles(df, min_n_cycles=c['n']))
+            return _attempt(lambda: detect_bursts_cycles(df, min_n_cycles=n))
         if c['via'] == 'amp':
-            return _attempt(lambda: detect_bursts_amp(df, min_n_cycles=c['n']))
+            return _attempt(lambda: detect_bursts_amp(df, min_n_cycles=n))
         if c['via'] == 'compute_features':
             from bycycle.features import compute_features
-            thr = {'min_n_cycles': c['n']}
+            thr = {'min_n_cycles': n}
             if c.get('quiet'):
                 thr['monotonicity_threshold'] = 1.0
             return _attempt(lambda: compute_features(sig, 100, (3, 8), threshold_kwargs=thr))
         arr = np.array([False, False, False]) if c.get('quiet') else np.array([True, False, True])
-        return _attempt(lambda: check_min_burst_cycles(arr, min_n_cycles=c['n']))
+        return _attempt(lambda: check_min_burst_cycles(arr, min_n_cycles=n))
     if k == 'ampthr':
         from bycycle.features import compute_features
         return _attempt(lambda: compute_features(sig, 100, (3, 8), burst_method='amp', threshold_kwargs={},
-                                                 burst_kwargs={'amp_threshes': (c['lo'], c['hi'])}))
+                                                 burst_kwargs={'amp_threshes': (_num(c['lo']), _num(c['hi']))}))
     if k == 'fs':
-        fs = c['fs']
-        fr = (3, 8)
-        if c['via'] == 'compute_features':
-            from bycycle.features import compute_features
-            return _attempt(lambda: compute_features(sig, fs, fr, threshold_kwargs={}))
-        if c['via'] == 'find_extrema':
-            from bycycle.cyclepoints import find_extrema
-            return _attempt(lambda: find_extrema(sig, fs, fr))
-        if c['via'] == 'cyclepoints':
-            from bycycle.features import compute_cyclepoints
-            return _attempt(lambda: compute_cyclepoints(sig, fs, fr))
-        if c['via'] == 'band_amp':
-            from bycycle.features import compute_cyclepoints
-            from bycycle.features.shape import compute_band_amp
-            dfs = compute_cyclepoints(sig, 100, fr)
-            return _attempt(lambda: compute_band_amp(dfs, sig, fs, fr))
-        from bycycle.features import compute_shape_features
-        return _attempt(lambda: compute_shape_features(sig, fs, fr))
+        return _run_fs(c['via'], _num(c['fs']))
+    if k == 'obj':
+        import copy
+        kw = copy.deepcopy(OBJ_SETTINGS[c['setting']][1])
+        kw.setdefault('thresholds', {})
+        if c['cls'] == 'Bycycle':
+            from bycycle import Bycycle
+            return _attempt(lambda: Bycycle(**kw).fit(sig, 100, (3, 8)))
+        from bycycle import BycycleGroup
+        sigs = np.array([_sig(240, 0), _sig(240, 1)])
+        if c['cls'] == 'Group3':
+            sigs = np.array([sigs])
+        return _attempt(lambda: BycycleGroup(**kw).fit(sigs, 100, (3, 8), n_jobs=1))
     if k == 'option':
         from bycycle.features import compute_features, compute_shape_features, compute_burst_features
-        o, v = c['opt'], c['v']
+        o, v = c['opt'], _num(c['v'])
         if o == 'center_extrema':
             return _attempt(lambda: compute_features(sig, 100, (3, 8), center_extrema=v, threshold_kwargs={}))
         if o == 'shape_center':
@@ -213,7 +340,7 @@ def run_impl(c):
             from bycycle.cyclepoints import find_extrema
             return _attempt(lambda: find_extrema(sig, 100, (3, 8), first_extrema=v))
         if o == 'first_extrema_override':
-            return _attempt(lambda: compute_shape_features(sig, 100, (3, 8), find_extrema_kwargs={'first_extrema': 'trough'}))
+            return _attempt(lambda: compute_shape_features(sig, 100, (3, 8), find_extrema_kwargs={'first_extrema': v}))
         if o.startswith('direction'):
             from bycycle.features.burst import compute_amp_consistency, compute_period_consistency
             from bycycle.burst.utils import recompute_edge
@@ -238,8 +365,7 @@ def run_impl(c):
         if o == 'plot_fitted':
             from bycycle import Bycycle
             import matplotlib.pyplot as plt
-            bm = Bycycle(thresholds={'amp_fraction_threshold': 0., 'amp_consistency_threshold': .5,
-                                     'period_consistency_threshold': .5, 'monotonicity_threshold': .8, 'min_n_cycles': 3})
+            bm = Bycycle(thresholds=dict(_PLOT_THR, min_n_cycles=3))
             if v:
                 bm.fit(sig, 100, (3, 8))
             r = _attempt(lambda: bm.plot(plot_only_results=True))
@@ -248,8 +374,19 @@ def run_impl(c):
     return {'harness_error': 'unknown case'}
 
 
+OPTION_TABLES = {       # documented values (mirrors Model/Validate.v: documented_options)
+    'center_extrema': ('OCenter', ['peak', 'trough']), 'shape_center': ('OCenter', ['peak', 'trough']),
+    'burst_method': ('OBurstMethod', ['cycles', 'amp']), 'burst_features_method': ('OBurstMethod', ['cycles', 'amp']),
+    'first_extrema': ('OFirstExtrema', ['peak', 'trough', None]),
+    'direction_amp': ('ODirection', ['both', 'next', 'last']), 'direction_period': ('ODirection', ['both', 'next', 'last']),
+    'direction_edge': ('ODirection', ['both', 'next', 'last']), 'progress': ('OProgress', [None, 'tqdm', 'tqdm.notebook']),
+    'first_extrema_override': ('OShapeFirstExtrema', []),
+}
+GUARDS = {'fit_dim': ('GFit %d%%nat', [1]), 'group_dim': ('GGroup %d%%nat', [2, 3]), 'plot_fitted': ('GPlot %s', [True])}
+
+
 def _expected(c):
-    """Documented validity (True = accepted)."""
+    """Documented validity (True = accepted, False = ValueError, None = not a clause of the property)."""
     k = c['kind']
     if k in ('shape', 'entry'):
         d, kw, a = c['dims'], c['kw'], c['axis']
@@ -269,25 +406,33 @@ def _expected(c):
             return kw == ['K1', d[2]]
         return kw == ['K2', d[1], d[2]]
     if k == 'range':
-        return c['lo'] <= c['v'] <= c['hi']
+        v = _num(c['v'])
+        if math.isnan(v):
+            return None                      # neither inside nor outside [0, 1]: model comparison only
+        return c['lo'] <= v <= c['hi']
     if k == 'min_n':
-        return c['n'] >= 0
+        return _num(c['n']) >= 0
     if k == 'ampthr':
-        return 0 <= c['lo'] <= c['hi']
+        return 0 <= _num(c['lo']) <= _num(c['hi'])
     if k == 'fs':
-        return c['fs'] > 0
+        return _num(c['fs']) > 0
+    if k == 'obj':
+        return OBJ_SETTINGS[c['setting']][2]
     if k == 'option':
-        valid = {'center_extrema': ['peak', 'trough'], 'shape_center': ['peak', 'trough'], 'burst_method': ['cycles', 'amp'],
-                 'burst_features_method': ['cycles', 'amp'], 'first_extrema': ['peak', 'trough', None],
-                 'direction_amp': ['both', 'next', 'last'], 'direction_period': ['both', 'next', 'last'],
-                 'direction_edge': ['both', 'next', 'last'], 'progress': [None, 'tqdm', 'tqdm.notebook'],
-                 'fit_dim': [1], 'group_dim': [2, 3], 'plot_fitted': [True], 'first_extrema_override': [],
-                 'shape_n_cycles': [3, 1], 'band_amp_n_cycles': [3]}
-        return c['v'] in valid[c['opt']]
+        o, v = c['opt'], _num(c['v'])
+        if o == 'first_extrema_override':
+            return None                      # refusing a valid first_extrema here is an implementation choice
+        if o in OPTION_TABLES:
+            return v in OPTION_TABLES[o][1]
+        if o in GUARDS:
+            return v in GUARDS[o][1]
+        return v >= 0                        # shape_n_cycles / band_amp_n_cycles
 
 
 def oracle(c, o):
     want = _expected(c)
+    if want is None:
+        return None
     if want:
         return None if o['r'] == 'ok' else 'valid setting rejected (%s: %s)' % (o['r'], o.get('msg'))
     if o['r'] == 'ok':
@@ -299,16 +444,51 @@ def oracle(c, o):
 
 def nontrivial(c, o):
     if c['kind'] in ('shape', 'entry'):
-        return c['kw'][0] in ('K1', 'K2')
+        return c['kw'][0] in ('K1', 'K2') or c.get('via') == 'group'
     return True
 
 
 def kind_of(c, o):
-    return c['kind'] + '/' + o.get('r', '?')
+    k = c['kind']
+    if k == 'entry':
+        k += '/' + c['via']
+    elif k == 'fs':
+        k += '/' + c['via']
+    elif k == 'obj':
+        k += '/' + c['cls'] + '/' + OBJ_SETTINGS[c['setting']][0]
+    return k + '/' + o.get('r', '?')
+
+
+def _obj_model(c):
+    """Model input of an object-level case: the offending (or control) setting, judged by the same model function as
+    the leaf entry point."""
+    cls, kw, _ = OBJ_SETTINGS[c['setting']]
+    if cls == 'thr':
+        bad = [(k, v) for k, v in kw['thresholds'].items()]
+        worst = [v for k, v in bad if not 0 <= v <= 1] or [bad[0][1]]
+        return 'range', '(%s, 0, 1)' % coqio.fl(worst[0])
+    if cls == 'min_n':
+        return 'min_n', '%s%%Z' % coqio.Z(kw['thresholds']['min_n_cycles'])
+    if cls == 'centre':
+        return 'option', '(OCenter, %s)' % _ostr(kw['center_extrema'])
+    if cls == 'burst_method':
+        return 'option', '(OBurstMethod, %s)' % _ostr(kw['burst_method'])
+    lo, hi = kw['burst_kwargs']['amp_threshes']
+    return 'ampthr', '(%s, %s)' % (coqio.fl(lo), coqio.fl(hi))
+
+
+def _ostr(v):
+    return 'None' if v is None else '(Some "%s"%%string)' % v
 
 
 def stream_of(c):
-    return {'shape': 'shape', 'entry': 'entry', 'range': 'range', 'ampthr': 'ampthr'}.get(c['kind'], 'none')
+    k = c['kind']
+    if k == 'obj':
+        return _obj_model(c)[0]
+    if k == 'option':
+        o = c['opt']
+        return 'option' if o in OPTION_TABLES else ('guard' if o in GUARDS else 'range')
+    return k
 
 
 def coq_case(c, o):
@@ -320,7 +500,23 @@ def coq_case(c, o):
         ks = kw[0] if len(kw) == 1 else '(%s %s)' % (kw[0], ' '.join('%d%%nat' % x for x in kw[1:]))
         return '(%s, %s, %s)' % (ds, ks, AXC[c['axis']]), acc
     if k == 'range':
-        return '(%s, %s, %s)' % (coqio.fl(c['v']), coqio.fl(c['lo']), coqio.fl(c['hi'])), acc
+        return '(%s, %s, %s)' % (coqio.fl(_num(c['v'])), coqio.fl(c['lo']), coqio.fl(c['hi'])), acc
     if k == 'ampthr':
-        return '(%s, %s)' % (coqio.fl(c['lo']), coqio.fl(c['hi'])), acc
+        return '(%s, %s)' % (coqio.fl(_num(c['lo'])), coqio.fl(_num(c['hi']))), acc
+    if k == 'min_n':
+        n = _num(c['n'])
+        if isinstance(n, float) and (math.isinf(n) or n != int(n)):
+            return None                      # the model's count is an integer
+        return '%s%%Z' % coqio.Z(n), acc
+    if k == 'fs':
+        return coqio.fl(_num(c['fs'])), acc
+    if k == 'obj':
+        return _obj_model(c)[1], acc
+    if k == 'option':
+        o, v = c['opt'], _num(c['v'])
+        if o in OPTION_TABLES:
+            return '(%s, %s)' % (OPTION_TABLES[o][0], _ostr(v)), acc
+        if o in GUARDS:
+            return '(%s)' % (GUARDS[o][0] % (coqio.B(v) if o == 'plot_fitted' else v)), acc
+        return '(%s, 0, infinity)' % coqio.fl(v), acc
     return None
